@@ -1,0 +1,59 @@
+//go:build verif
+
+// Package verifhook re-exports pieces of the console UI for the verification
+// harness (cmd/verifharness). The UI packages below internal/consoleui/internal
+// can be imported only from inside internal/consoleui, so the harness reaches
+// them through this package. Everything here is guarded by the build tag
+// "verif" and is invisible to ordinary builds and tests.
+//
+// This file holds the shared plumbing; each verified component adds its own
+// file hook_<component>.go to this package.
+package verifhook
+
+import (
+	"bytes"
+	"io"
+	"mltwist/internal/consoleui/internal/linereader"
+	"os"
+	"strings"
+)
+
+// SetInput makes the UI read its input lines from the given text.
+func SetInput(text string) { linereader.VerifSetInput(strings.NewReader(text)) }
+
+// SetInputReader makes the UI read its input lines from rd.
+func SetInputReader(rd io.Reader) { linereader.VerifSetInput(rd) }
+
+// CaptureStdout runs f with os.Stdout redirected and returns what f printed.
+// A panic of f is propagated after the redirection has been undone.
+func CaptureStdout(f func()) string {
+	old := os.Stdout
+	rd, wr, err := os.Pipe()
+	if err != nil {
+		panic(err)
+	}
+
+	done := make(chan []byte)
+	go func() {
+		var buf bytes.Buffer
+		_, _ = io.Copy(&buf, rd)
+		done <- buf.Bytes()
+	}()
+
+	os.Stdout = wr
+	defer func() {
+		os.Stdout = old
+	}()
+
+	var out []byte
+	func() {
+		defer func() {
+			_ = wr.Close()
+			out = <-done
+			_ = rd.Close()
+		}()
+		f()
+	}()
+
+	return string(out)
+}
